@@ -375,9 +375,14 @@ impl<CS: BbsCiphersuite> PoKSignature<BBSplus<CS>> {
     {
         let proof = self.to_bbsplus_proof();
         let disclosed_messages = disclosed_messages.unwrap_or(&[]);
-        let mut disclosed_indexes = disclosed_indexes.unwrap_or(&[]).to_vec();
-        disclosed_indexes.sort();
-        disclosed_indexes.dedup();
+        let disclosed_indexes = disclosed_indexes.unwrap_or(&[]).to_vec();
+        // The k-th disclosed message belongs to the k-th index. Sorting or de-duplicating the index list here would
+        // silently re-associate messages and positions, so a list that is not strictly ascending is refused.
+        if disclosed_indexes.windows(2).any(|w| w[0] >= w[1]) {
+            return Err(Error::PoKSVerificationError(
+                "disclosed indexes not in ascending order".to_owned(),
+            ));
+        }
 
         let U = proof.m_cap.len();
         let R = disclosed_indexes.len();
@@ -444,12 +449,18 @@ impl<CS: BbsCiphersuite> PoKSignature<BBSplus<CS>> {
         let L = L.unwrap_or(0);
         let disclosed_messages = disclosed_messages.unwrap_or(&[]);
         let disclosed_committed_messages = disclosed_committed_messages.unwrap_or(&[]);
-        let mut disclosed_indexes = disclosed_indexes.unwrap_or(&[]).to_vec();
-        disclosed_indexes.sort();
-        disclosed_indexes.dedup();
-        let mut disclosed_commitment_indexes = disclosed_commitment_indexes.unwrap_or(&[]).to_vec();
-        disclosed_commitment_indexes.sort();
-        disclosed_commitment_indexes.dedup();
+        let disclosed_indexes = disclosed_indexes.unwrap_or(&[]).to_vec();
+        let disclosed_commitment_indexes = disclosed_commitment_indexes.unwrap_or(&[]).to_vec();
+        // as in proof_verify: message k of each list belongs to index k of that list
+        if disclosed_indexes.windows(2).any(|w| w[0] >= w[1])
+            || disclosed_commitment_indexes
+                .windows(2)
+                .any(|w| w[0] >= w[1])
+        {
+            return Err(Error::PoKSVerificationError(
+                "disclosed indexes not in ascending order".to_owned(),
+            ));
+        }
 
         let api_id = CS::API_ID_BLIND;
 
